@@ -721,11 +721,12 @@ func newControlPlaneWithContextOptions(
 	}
 	plane.dnsRouting = dnsUpstream
 	plane.dnsFixedDomainTtl = fixedDomainTtl
+
+	plane.dnsOptimisticCache = dnsConfig.OptimisticCache
+	plane.dnsOptimisticCacheTtl = dnsConfig.OptimisticCacheTtl
+	plane.dnsMaxCacheSize = dnsConfig.MaxCacheSize
+	plane.dnsIpVersionPrefer = dnsConfig.IpVersionPrefer
 	dnsControllerOption := plane.dnsControllerOption()
-	dnsControllerOption.OptimisticCache = dnsConfig.OptimisticCache
-	dnsControllerOption.OptimisticCacheTtl = dnsConfig.OptimisticCacheTtl
-	dnsControllerOption.MaxCacheSize = dnsConfig.MaxCacheSize
-	dnsControllerOption.IpVersionPrefer = dnsConfig.IpVersionPrefer
 	plane.dnsController, err = NewDnsController(dnsUpstream, dnsControllerOption)
 	if err != nil {
 		return nil, err
@@ -750,7 +751,7 @@ func newControlPlaneWithContextOptions(
 	if err = dnsUpstream.CheckUpstreamsFormat(); err != nil {
 		return nil, err
 	}
-	verifsim.Go("control_plane.go:807", func() {
+	verifsim.Go("control_plane.go:809", func() {
 		defer close(plane.dnsUpstreamsReady)
 		dnsUpstream.InitUpstreams(plane.ctx)
 	})
@@ -762,7 +763,7 @@ func newControlPlaneWithContextOptions(
 			return nil, err
 		}
 		if plane.sharedBpfReload {
-			verifsim.Yield("control_plane.go:819")
+			verifsim.Yield("control_plane.go:821")
 			if err = clearReloadDomainRoutingMap(core.bpf.Load()); err != nil {
 				return nil, fmt.Errorf("clearReloadDomainRoutingMap: %w", err)
 			}
@@ -930,7 +931,7 @@ func (c *ControlPlane) dnsRequestContext(ctx context.Context, controller *DnsCon
 	if c == nil || controller == nil || controller == c.dnsController {
 		return ctx
 	}
-	verifsim.Yield("control_plane.go:996")
+	verifsim.Yield("control_plane.go:998")
 	if c.dnsHandoffController.Load() == controller {
 		return controller.baseContext()
 	}
@@ -956,15 +957,15 @@ func (c *ControlPlane) replaceDNSHandoffController(controller *DnsController, ow
 	if c == nil {
 		return nil, false
 	}
-	verifsim.Yield("control_plane.go:1023")
+	verifsim.Yield("control_plane.go:1025")
 	c.dnsHandoffMu.Lock()
 	defer c.dnsHandoffMu.Unlock()
-	verifsim.Yield("control_plane.go:1026")
+	verifsim.Yield("control_plane.go:1028")
 
 	previous := c.dnsHandoffController.Load()
 	previousOwned := c.dnsHandoffOwned
 	c.dnsHandoffOwned = owned && controller != nil
-	verifsim.Yield("control_plane.go:1029")
+	verifsim.Yield("control_plane.go:1031")
 	c.dnsHandoffController.Store(controller)
 	return previous, previousOwned
 }
@@ -973,10 +974,10 @@ func (c *ControlPlane) clearDNSHandoffControllerIfMatch(controller *DnsControlle
 	if c == nil {
 		return nil, false, false
 	}
-	verifsim.Yield("control_plane.go:1037")
+	verifsim.Yield("control_plane.go:1039")
 	c.dnsHandoffMu.Lock()
 	defer c.dnsHandoffMu.Unlock()
-	verifsim.Yield("control_plane.go:1040")
+	verifsim.Yield("control_plane.go:1042")
 
 	current := c.dnsHandoffController.Load()
 	if current != controller {
@@ -984,7 +985,7 @@ func (c *ControlPlane) clearDNSHandoffControllerIfMatch(controller *DnsControlle
 	}
 	owned := c.dnsHandoffOwned
 	c.dnsHandoffOwned = false
-	verifsim.Yield("control_plane.go:1046")
+	verifsim.Yield("control_plane.go:1048")
 	c.dnsHandoffController.Store(nil)
 	return current, owned, true
 }
@@ -993,15 +994,15 @@ func (c *ControlPlane) takeDNSHandoffController() (*DnsController, bool) {
 	if c == nil {
 		return nil, false
 	}
-	verifsim.Yield("control_plane.go:1054")
+	verifsim.Yield("control_plane.go:1056")
 	c.dnsHandoffMu.Lock()
 	defer c.dnsHandoffMu.Unlock()
-	verifsim.Yield("control_plane.go:1057")
+	verifsim.Yield("control_plane.go:1059")
 
 	controller := c.dnsHandoffController.Load()
 	owned := c.dnsHandoffOwned
 	c.dnsHandoffOwned = false
-	verifsim.Yield("control_plane.go:1060")
+	verifsim.Yield("control_plane.go:1062")
 	c.dnsHandoffController.Store(nil)
 	return controller, owned
 }
@@ -1021,11 +1022,11 @@ func (c *ControlPlane) EnableDNSHandoff(controller *DnsController, duration time
 			timer := time.NewTimer(duration)
 			defer timer.Stop()
 			{
-				verifsim.Yield("control_plane.go:1077")
+				verifsim.Yield("control_plane.go:1079")
 				_vc2 := timer.C
 				_vc3 := c.ctx.Done()
 				_vi4 := -1
-				for _, _vo5 := range verifsim.SelectOrder("control_plane.go:1077", 2) {
+				for _, _vo5 := range verifsim.SelectOrder("control_plane.go:1079", 2) {
 					switch _vo5 {
 					case 0:
 						select {
@@ -1051,7 +1052,7 @@ func (c *ControlPlane) EnableDNSHandoff(controller *DnsController, duration time
 					case <-_vc3:
 						_vi4 = 1
 					}
-					verifsim.Yield("control_plane.go:1077+")
+					verifsim.Yield("control_plane.go:1079+")
 				}
 				switch _vi4 {
 				case 0:
@@ -1075,7 +1076,7 @@ func (c *ControlPlane) EnableDNSHandoff(controller *DnsController, duration time
 
 		}
 		_va7 := controller
-		verifsim.Go("control_plane.go:1074", func() {
+		verifsim.Go("control_plane.go:1076", func() {
 			_vf6(_va7)
 		})
 	}
@@ -1203,9 +1204,9 @@ func (c *ControlPlane) markReady() {
 	if c == nil {
 		return
 	}
-	verifsim.Yield("control_plane.go:1222")
+	verifsim.Yield("control_plane.go:1224")
 	c.readyOnce.Do(func() {
-		verifsim.Yield("control_plane.go:1223")
+		verifsim.Yield("control_plane.go:1225")
 		close(c.ready)
 	})
 }
@@ -1278,7 +1279,11 @@ func (c *ControlPlane) dnsControllerOption() *DnsControllerOption {
 				UdpHealthDomain:	dialer.UdpHealthDomainDns,
 			}, err)
 		},
-		FixedDomainTtl:	c.dnsFixedDomainTtl,
+		FixedDomainTtl:		c.dnsFixedDomainTtl,
+		OptimisticCache:	c.dnsOptimisticCache,
+		OptimisticCacheTtl:	c.dnsOptimisticCacheTtl,
+		MaxCacheSize:		c.dnsMaxCacheSize,
+		IpVersionPrefer:	c.dnsIpVersionPrefer,
 	}
 }
 
@@ -1286,7 +1291,7 @@ func (c *ControlPlane) closePublishedListenerFiles() error {
 	if c == nil {
 		return nil
 	}
-	verifsim.Yield("control_plane.go:1304")
+	verifsim.Yield("control_plane.go:1310")
 
 	c.listenerPublishMu.Lock()
 	files := c.listenerFiles
@@ -1328,7 +1333,7 @@ func (c *ControlPlane) publishListenerSockets(listener *Listener) error {
 			return fmt.Errorf("failed to retrieve copy of the underlying TCP IPv4 listener file")
 		}
 		newFiles = append(newFiles, tcp4File)
-		verifsim.Yield("control_plane.go:1344")
+		verifsim.Yield("control_plane.go:1350")
 		if err = c.core.bpf.Load().ListenSocketMap.Update(consts.ZeroKey, uint64(tcp4File.Fd()), ebpf.UpdateAny); err != nil {
 			closeNewFiles()
 			return err
@@ -1341,7 +1346,7 @@ func (c *ControlPlane) publishListenerSockets(listener *Listener) error {
 			return fmt.Errorf("failed to retrieve copy of the underlying TCP IPv6 listener file")
 		}
 		newFiles = append(newFiles, tcp6File)
-		verifsim.Yield("control_plane.go:1356")
+		verifsim.Yield("control_plane.go:1362")
 		if err = c.core.bpf.Load().ListenSocketMap.Update(consts.TwoKey, uint64(tcp6File.Fd()), ebpf.UpdateAny); err != nil {
 			closeNewFiles()
 			return err
@@ -1354,13 +1359,13 @@ func (c *ControlPlane) publishListenerSockets(listener *Listener) error {
 			return fmt.Errorf("failed to retrieve copy of the underlying UDP connection file")
 		}
 		newFiles = append(newFiles, udpFile)
-		verifsim.Yield("control_plane.go:1368")
+		verifsim.Yield("control_plane.go:1374")
 		if err = c.core.bpf.Load().ListenSocketMap.Update(consts.OneKey, uint64(udpFile.Fd()), ebpf.UpdateAny); err != nil {
 			closeNewFiles()
 			return err
 		}
 	}
-	verifsim.Yield("control_plane.go:1374")
+	verifsim.Yield("control_plane.go:1380")
 
 	c.listenerPublishMu.Lock()
 	oldFiles := c.listenerFiles
@@ -1440,16 +1445,16 @@ func (c *ControlPlane) registerIncomingConnection(conn net.Conn) bool {
 	if c == nil || conn == nil {
 		return false
 	}
-	verifsim.Yield("control_plane.go:1452")
+	verifsim.Yield("control_plane.go:1458")
 	if c.rejectNewConnections.Load() {
 		_ = conn.Close()
 		return false
 	}
-	verifsim.Yield("control_plane.go:1456")
+	verifsim.Yield("control_plane.go:1462")
 	c.inConnections.Store(conn, struct{}{})
-	verifsim.Yield("control_plane.go:1457")
+	verifsim.Yield("control_plane.go:1463")
 	if c.rejectNewConnections.Load() {
-		verifsim.Yield("control_plane.go:1458")
+		verifsim.Yield("control_plane.go:1464")
 		c.inConnections.Delete(conn)
 		_ = conn.Close()
 		return false
@@ -1461,7 +1466,7 @@ func (c *ControlPlane) unregisterIncomingConnection(conn net.Conn) {
 	if c == nil || conn == nil {
 		return
 	}
-	verifsim.Yield("control_plane.go:1469")
+	verifsim.Yield("control_plane.go:1475")
 	c.inConnections.Delete(conn)
 }
 
@@ -1474,7 +1479,7 @@ func (c *ControlPlane) CommitPreparedDatapath() error {
 	}
 	if c.routingKernspaceSnapshot != nil {
 		c.log.Infoln("Loading routing rules into kernel space (BPF)...")
-		verifsim.Yield("control_plane.go:1483")
+		verifsim.Yield("control_plane.go:1489")
 		lpmIndices, err := c.routingKernspaceSnapshot.BuildKernspace(c.log, c.core.bpf.Load())
 		if err != nil {
 			return fmt.Errorf("routing kernspace snapshot: %w", err)
@@ -1482,7 +1487,7 @@ func (c *ControlPlane) CommitPreparedDatapath() error {
 		c.core.lpmTrieIndices = lpmIndices
 	}
 	if c.sharedBpfReload {
-		verifsim.Yield("control_plane.go:1490")
+		verifsim.Yield("control_plane.go:1496")
 		if err := clearReloadDomainRoutingMap(c.core.bpf.Load()); err != nil {
 			return fmt.Errorf("clearReloadDomainRoutingMap: %w", err)
 		}
@@ -1498,13 +1503,13 @@ func (c *ControlPlane) RebuildReloadDatapath() error {
 		return nil
 	}
 	c.log.Warnln("[Reload] Rebuilding previous generation datapath after staged handoff failure")
-	verifsim.Yield("control_plane.go:1507")
+	verifsim.Yield("control_plane.go:1513")
 	lpmIndices, err := c.routingKernspaceSnapshot.BuildKernspace(c.log, c.core.bpf.Load())
 	if err != nil {
 		return fmt.Errorf("rebuild routing kernspace: %w", err)
 	}
 	c.ReplaceLpmIndices(lpmIndices)
-	verifsim.Yield("control_plane.go:1512")
+	verifsim.Yield("control_plane.go:1518")
 	if err := clearReloadDomainRoutingMap(c.core.bpf.Load()); err != nil {
 		return fmt.Errorf("rebuild clearReloadDomainRoutingMap: %w", err)
 	}
@@ -1519,11 +1524,11 @@ func (c *ControlPlane) dnsUpstreamReadyCallback(dnsUpstream *dns.Upstream) (err 
 		c.noteDNSUpstreamAvailable()
 	}
 	{
-		verifsim.Yield("control_plane.go:1526")
+		verifsim.Yield("control_plane.go:1532")
 		_vc8 := c.ctx.Done()
 		_vc9 := c.ready
 		_vi10 := -1
-		for _, _vo11 := range verifsim.SelectOrder("control_plane.go:1526", 2) {
+		for _, _vo11 := range verifsim.SelectOrder("control_plane.go:1532", 2) {
 			switch _vo11 {
 			case 0:
 				select {
@@ -1549,7 +1554,7 @@ func (c *ControlPlane) dnsUpstreamReadyCallback(dnsUpstream *dns.Upstream) (err 
 			case <-_vc9:
 				_vi10 = 1
 			}
-			verifsim.Yield("control_plane.go:1526+")
+			verifsim.Yield("control_plane.go:1532+")
 		}
 		switch _vi10 {
 		case 0:
@@ -1559,7 +1564,7 @@ func (c *ControlPlane) dnsUpstreamReadyCallback(dnsUpstream *dns.Upstream) (err 
 			panic("verifsim: select dispatch: no case chosen")
 		}
 	}
-	verifsim.Yield("control_plane.go:1533")
+	verifsim.Yield("control_plane.go:1539")
 
 	c.onceNetworkReady.Do(func() {
 		for _, out := range c.outbounds {
@@ -1693,7 +1698,7 @@ func (c *ControlPlane) ChooseDialTarget(outbound consts.OutboundIndex, dst netip
 }
 
 func (c *ControlPlane) lookupRealDomainCache(domain string) (known bool, real bool) {
-	verifsim.Yield("control_plane.go:1673")
+	verifsim.Yield("control_plane.go:1679")
 
 	c.muRealDomainSet.RLock()
 	hit := c.realDomainSet.TestString(domain)
@@ -1703,13 +1708,13 @@ func (c *ControlPlane) lookupRealDomainCache(domain string) (known bool, real bo
 	}
 
 	now := time.Now()
-	verifsim.Yield("control_plane.go:1682")
+	verifsim.Yield("control_plane.go:1688")
 	if v, ok := c.realDomainNegSet.Load(domain); ok {
 		expiresAt, _ := v.(int64)
 		if now.UnixNano() < expiresAt {
 			return true, false
 		}
-		verifsim.Yield("control_plane.go:1687")
+		verifsim.Yield("control_plane.go:1693")
 		c.realDomainNegSet.Delete(domain)
 	}
 	return false, false
@@ -1730,12 +1735,12 @@ func (c *ControlPlane) triggerRealDomainProbe(domain string) {
 	if known, _ := c.lookupRealDomainCache(domain); known {
 		return
 	}
-	verifsim.Go("control_plane.go:1707", func() {
-		verifsim.Yield("control_plane.go:1708")
+	verifsim.Go("control_plane.go:1713", func() {
+		verifsim.Yield("control_plane.go:1714")
 		_, _, _ = c.realDomainProbeS.Do(domain, func() (any, error) {
 			return c.probeAndUpdateRealDomain(domain), nil
 		})
-		verifsim.Yield("control_plane.go:1708+")
+		verifsim.Yield("control_plane.go:1714+")
 	})
 }
 
@@ -1766,16 +1771,16 @@ func (c *ControlPlane) probeAndUpdateRealDomain(domain string) bool {
 		return false
 	}
 	if !ip46.Ip4.IsValid() && !ip46.Ip6.IsValid() {
-		verifsim.Yield("control_plane.go:1741")
+		verifsim.Yield("control_plane.go:1747")
 		c.realDomainNegSet.Store(domain, now.Add(realDomainNegativeCacheTTL).UnixNano())
 		return false
 	}
-	verifsim.Yield("control_plane.go:1745")
+	verifsim.Yield("control_plane.go:1751")
 
 	c.muRealDomainSet.Lock()
 	c.realDomainSet.AddString(domain)
 	c.muRealDomainSet.Unlock()
-	verifsim.Yield("control_plane.go:1748")
+	verifsim.Yield("control_plane.go:1754")
 	c.realDomainNegSet.Delete(domain)
 	return true
 }
@@ -1832,12 +1837,12 @@ func (c *ControlPlane) resolveIp46WithBootstrapResolvers(
 
 func (c *ControlPlane) cleanupNegativeCaches(now time.Time) {
 	nowNano := now.UnixNano()
-	verifsim.Yield("control_plane.go:1806")
+	verifsim.Yield("control_plane.go:1812")
 
 	c.realDomainNegSet.Range(func(key, value interface{}) bool {
 		expiresAt, ok := value.(int64)
 		if !ok || nowNano >= expiresAt {
-			verifsim.Yield("control_plane.go:1809")
+			verifsim.Yield("control_plane.go:1815")
 			c.realDomainNegSet.Delete(key)
 		}
 		return true
@@ -1930,7 +1935,7 @@ func (c *ControlPlane) loadDnsDialerSnapshot(key dnsDialerSnapshotKey, now time.
 	if dnsDialerSnapshotTTL <= 0 {
 		return nil, false
 	}
-	verifsim.Yield("control_plane.go:1906")
+	verifsim.Yield("control_plane.go:1912")
 
 	v, ok := c.dnsDialerSnapshot.Load(key)
 	if !ok {
@@ -1939,20 +1944,20 @@ func (c *ControlPlane) loadDnsDialerSnapshot(key dnsDialerSnapshotKey, now time.
 
 	entry, ok := v.(*dnsDialerSnapshotEntry)
 	if !ok {
-		verifsim.Yield("control_plane.go:1913")
+		verifsim.Yield("control_plane.go:1919")
 		c.dnsDialerSnapshot.Delete(key)
 		return nil, false
 	}
 
 	if entry.expiresAtUnixNano <= now.UnixNano() {
-		verifsim.Yield("control_plane.go:1918")
+		verifsim.Yield("control_plane.go:1924")
 		c.dnsDialerSnapshot.CompareAndDelete(key, entry)
 		return nil, false
 	}
 
 	dialArg := entry.dialArg
 	if c.isDnsDialArgPenalized(&dialArg, now) {
-		verifsim.Yield("control_plane.go:1924")
+		verifsim.Yield("control_plane.go:1930")
 		c.dnsDialerSnapshot.CompareAndDelete(key, entry)
 		return nil, false
 	}
@@ -1967,22 +1972,22 @@ func (c *ControlPlane) storeDnsDialerSnapshot(key dnsDialerSnapshotKey, dialArg 
 		expiresAtUnixNano:	now.Add(dnsDialerSnapshotTTL).UnixNano(),
 		dialArg:		*dialArg,
 	}
-	verifsim.Yield("control_plane.go:1938")
+	verifsim.Yield("control_plane.go:1944")
 	c.dnsDialerSnapshot.Store(key, entry)
 }
 
 func (c *ControlPlane) cleanupDnsDialerSnapshot(now time.Time) {
 	nowNano := now.UnixNano()
-	verifsim.Yield("control_plane.go:1943")
+	verifsim.Yield("control_plane.go:1949")
 	c.dnsDialerSnapshot.Range(func(key, value any) bool {
 		entry, ok := value.(*dnsDialerSnapshotEntry)
 		if !ok {
-			verifsim.Yield("control_plane.go:1946")
+			verifsim.Yield("control_plane.go:1952")
 			c.dnsDialerSnapshot.Delete(key)
 			return true
 		}
 		if entry.expiresAtUnixNano <= nowNano {
-			verifsim.Yield("control_plane.go:1950")
+			verifsim.Yield("control_plane.go:1956")
 			c.dnsDialerSnapshot.CompareAndDelete(key, entry)
 		}
 		return true
@@ -1991,16 +1996,16 @@ func (c *ControlPlane) cleanupDnsDialerSnapshot(now time.Time) {
 
 func (c *ControlPlane) cleanupDnsDialerPenalty(now time.Time) {
 	nowNano := now.UnixNano()
-	verifsim.Yield("control_plane.go:1958")
+	verifsim.Yield("control_plane.go:1964")
 	c.dnsDialerPenalty.Range(func(key, value any) bool {
 		entry, ok := value.(*dnsDialerPenaltyEntry)
 		if !ok {
-			verifsim.Yield("control_plane.go:1961")
+			verifsim.Yield("control_plane.go:1967")
 			c.dnsDialerPenalty.Delete(key)
 			return true
 		}
 		if entry.expiresAtUnixNano <= nowNano {
-			verifsim.Yield("control_plane.go:1965")
+			verifsim.Yield("control_plane.go:1971")
 			c.dnsDialerPenalty.CompareAndDelete(key, entry)
 		}
 		return true
@@ -2024,19 +2029,19 @@ func (c *ControlPlane) isDnsDialArgPenalized(dialArg *dialArgument, now time.Tim
 	if !ok {
 		return false
 	}
-	verifsim.Yield("control_plane.go:1988")
+	verifsim.Yield("control_plane.go:1994")
 	value, ok := c.dnsDialerPenalty.Load(key)
 	if !ok {
 		return false
 	}
 	entry, ok := value.(*dnsDialerPenaltyEntry)
 	if !ok {
-		verifsim.Yield("control_plane.go:1994")
+		verifsim.Yield("control_plane.go:2000")
 		c.dnsDialerPenalty.Delete(key)
 		return false
 	}
 	if entry.expiresAtUnixNano <= now.UnixNano() {
-		verifsim.Yield("control_plane.go:1998")
+		verifsim.Yield("control_plane.go:2004")
 		c.dnsDialerPenalty.CompareAndDelete(key, entry)
 		return false
 	}
@@ -2051,26 +2056,26 @@ func (c *ControlPlane) penalizeDnsDialArg(dialArg *dialArgument, now time.Time) 
 	if !ok {
 		return
 	}
-	verifsim.Yield("control_plane.go:2012")
+	verifsim.Yield("control_plane.go:2018")
 	c.dnsDialerPenalty.Store(key, &dnsDialerPenaltyEntry{
 		expiresAtUnixNano: now.Add(dnsDialerPenaltyTTL).UnixNano(),
 	})
 }
 
 func (c *ControlPlane) startRealDomainNegJanitor() {
-	verifsim.Go("control_plane.go:2018", func() {
+	verifsim.Go("control_plane.go:2024", func() {
 		ticker := time.NewTicker(realDomainNegJanitorInterval)
 		defer ticker.Stop()
 		defer close(c.negJanitorDone)
 		for {
 			{
-				verifsim.Yield("control_plane.go:2023")
+				verifsim.Yield("control_plane.go:2029")
 				_vc12 := c.negJanitorStop
 				_vc13 := c.ctx.Done()
 				_vc14 := ticker.C
 				var _vr15 = verifsim.ChanZero(_vc14)
 				_vi16 := -1
-				for _, _vo17 := range verifsim.SelectOrder("control_plane.go:2023", 3) {
+				for _, _vo17 := range verifsim.SelectOrder("control_plane.go:2029", 3) {
 					switch _vo17 {
 					case 0:
 						select {
@@ -2104,7 +2109,7 @@ func (c *ControlPlane) startRealDomainNegJanitor() {
 					case _vr15 = <-_vc14:
 						_vi16 = 2
 					}
-					verifsim.Yield("control_plane.go:2023+")
+					verifsim.Yield("control_plane.go:2029+")
 				}
 				switch _vi16 {
 				case 0:
@@ -2127,21 +2132,21 @@ func (c *ControlPlane) startRealDomainNegJanitor() {
 }
 
 func (c *ControlPlane) stopRealDomainNegJanitor() {
-	verifsim.Yield("control_plane.go:2038")
+	verifsim.Yield("control_plane.go:2044")
 	c.negJanitorOnce.Do(func() {
 		if c.negJanitorStop != nil {
-			verifsim.Yield("control_plane.go:2040")
+			verifsim.Yield("control_plane.go:2046")
 			close(c.negJanitorStop)
 		}
 		if c.negJanitorDone != nil {
 			timer := time.NewTimer(gracefulShutdownWaitTimeout)
 			defer timer.Stop()
 			{
-				verifsim.Yield("control_plane.go:2045")
+				verifsim.Yield("control_plane.go:2051")
 				_vc18 := c.negJanitorDone
 				_vc19 := timer.C
 				_vi20 := -1
-				for _, _vo21 := range verifsim.SelectOrder("control_plane.go:2045", 2) {
+				for _, _vo21 := range verifsim.SelectOrder("control_plane.go:2051", 2) {
 					switch _vo21 {
 					case 0:
 						select {
@@ -2167,7 +2172,7 @@ func (c *ControlPlane) stopRealDomainNegJanitor() {
 					case <-_vc19:
 						_vi20 = 1
 					}
-					verifsim.Yield("control_plane.go:2045+")
+					verifsim.Yield("control_plane.go:2051+")
 				}
 				switch _vi20 {
 				case 0:
@@ -2183,11 +2188,11 @@ func (c *ControlPlane) stopRealDomainNegJanitor() {
 }
 
 func (c *ControlPlane) startConnStateJanitor() {
-	verifsim.Yield("control_plane.go:2059")
+	verifsim.Yield("control_plane.go:2065")
 	if c == nil || !c.connStateJanitorStarted.CompareAndSwap(false, true) {
 		return
 	}
-	verifsim.Go("control_plane.go:2062", func() {
+	verifsim.Go("control_plane.go:2068", func() {
 		ticker := time.NewTicker(connStateJanitorPressureInterval)
 		defer ticker.Stop()
 		defer close(c.connStateJanitorDone)
@@ -2203,13 +2208,13 @@ func (c *ControlPlane) startConnStateJanitor() {
 
 		for {
 			{
-				verifsim.Yield("control_plane.go:2077")
+				verifsim.Yield("control_plane.go:2083")
 				_vc22 := c.connStateJanitorStop
 				_vc23 := c.ctx.Done()
 				_vc24 := ticker.C
 				var _vr25 = verifsim.ChanZero(_vc24)
 				_vi26 := -1
-				for _, _vo27 := range verifsim.SelectOrder("control_plane.go:2077", 3) {
+				for _, _vo27 := range verifsim.SelectOrder("control_plane.go:2083", 3) {
 					switch _vo27 {
 					case 0:
 						select {
@@ -2243,7 +2248,7 @@ func (c *ControlPlane) startConnStateJanitor() {
 					case _vr25 = <-_vc24:
 						_vi26 = 2
 					}
-					verifsim.Yield("control_plane.go:2077+")
+					verifsim.Yield("control_plane.go:2083+")
 				}
 				switch _vi26 {
 				case 0:
@@ -2321,7 +2326,7 @@ func (c *ControlPlane) RunReloadRetirementCleanup(staleBeforeNs uint64) {
 	if c == nil || staleBeforeNs == 0 {
 		return
 	}
-	verifsim.Yield("control_plane.go:2148")
+	verifsim.Yield("control_plane.go:2154")
 
 	c.connStateCleanupMu.Lock()
 	verifsim.Locked()
@@ -2352,25 +2357,25 @@ func (c *ControlPlane) RunReloadRetirementCleanup(staleBeforeNs uint64) {
 }
 
 func (c *ControlPlane) stopConnStateJanitor() {
-	verifsim.Yield("control_plane.go:2177")
+	verifsim.Yield("control_plane.go:2183")
 	if c == nil || !c.connStateJanitorStarted.Load() {
 		return
 	}
-	verifsim.Yield("control_plane.go:2180")
+	verifsim.Yield("control_plane.go:2186")
 	verifsim.OnceDo(&c.connStateJanitorOnce, func() {
 		if c.connStateJanitorStop != nil {
-			verifsim.Yield("control_plane.go:2182")
+			verifsim.Yield("control_plane.go:2188")
 			close(c.connStateJanitorStop)
 		}
 		if c.connStateJanitorDone != nil {
 			timer := time.NewTimer(gracefulShutdownWaitTimeout)
 			defer timer.Stop()
 			{
-				verifsim.Yield("control_plane.go:2187")
+				verifsim.Yield("control_plane.go:2193")
 				_vc28 := c.connStateJanitorDone
 				_vc29 := timer.C
 				_vi30 := -1
-				for _, _vo31 := range verifsim.SelectOrder("control_plane.go:2187", 2) {
+				for _, _vo31 := range verifsim.SelectOrder("control_plane.go:2193", 2) {
 					switch _vo31 {
 					case 0:
 						select {
@@ -2396,7 +2401,7 @@ func (c *ControlPlane) stopConnStateJanitor() {
 					case <-_vc29:
 						_vi30 = 1
 					}
-					verifsim.Yield("control_plane.go:2187+")
+					verifsim.Yield("control_plane.go:2193+")
 				}
 				switch _vi30 {
 				case 0:
@@ -2414,7 +2419,7 @@ func (c *ControlPlane) stopConnStateJanitor() {
 const redirectTrackTimeout = 5 * time.Minute
 
 func (c *ControlPlane) cleanupRedirectTrackMap() int {
-	verifsim.Yield("control_plane.go:2207")
+	verifsim.Yield("control_plane.go:2213")
 	c.connStateCleanupMu.Lock()
 	verifsim.Locked()
 	defer verifsim.DeferUnlock(c.connStateCleanupMu.Unlock)
@@ -2423,10 +2428,10 @@ func (c *ControlPlane) cleanupRedirectTrackMap() int {
 
 func (c *ControlPlane) cleanupRedirectTrackMapBeforeLocked(staleBeforeNs uint64) int {
 	{
-		verifsim.Yield("control_plane.go:2214")
+		verifsim.Yield("control_plane.go:2220")
 		_vc32 := c.connStateJanitorStop
 		_vi33 := -1
-		for _, _vo34 := range verifsim.SelectOrder("control_plane.go:2214", 1) {
+		for _, _vo34 := range verifsim.SelectOrder("control_plane.go:2220", 1) {
 			switch _vo34 {
 			case 0:
 				select {
@@ -2524,7 +2529,7 @@ func (c *ControlPlane) cleanupRedirectTrackMapBeforeLocked(staleBeforeNs uint64)
 }
 
 func (c *ControlPlane) cleanupCookiePidMap() int {
-	verifsim.Yield("control_plane.go:2301")
+	verifsim.Yield("control_plane.go:2307")
 	c.connStateCleanupMu.Lock()
 	verifsim.Locked()
 	defer verifsim.DeferUnlock(c.connStateCleanupMu.Unlock)
@@ -2533,10 +2538,10 @@ func (c *ControlPlane) cleanupCookiePidMap() int {
 
 func (c *ControlPlane) cleanupCookiePidMapBeforeLocked(staleBeforeNs uint64) int {
 	{
-		verifsim.Yield("control_plane.go:2307")
+		verifsim.Yield("control_plane.go:2313")
 		_vc35 := c.connStateJanitorStop
 		_vi36 := -1
-		for _, _vo37 := range verifsim.SelectOrder("control_plane.go:2307", 1) {
+		for _, _vo37 := range verifsim.SelectOrder("control_plane.go:2313", 1) {
 			switch _vo37 {
 			case 0:
 				select {
@@ -2619,7 +2624,7 @@ func (c *ControlPlane) cleanupCookiePidMapBeforeLocked(staleBeforeNs uint64) int
 }
 
 func (c *ControlPlane) cleanupRoutingHandoffMap() int {
-	verifsim.Yield("control_plane.go:2379")
+	verifsim.Yield("control_plane.go:2385")
 	c.connStateCleanupMu.Lock()
 	verifsim.Locked()
 	defer verifsim.DeferUnlock(c.connStateCleanupMu.Unlock)
@@ -2628,10 +2633,10 @@ func (c *ControlPlane) cleanupRoutingHandoffMap() int {
 
 func (c *ControlPlane) cleanupRoutingHandoffMapBeforeLocked(staleBeforeNs uint64) int {
 	{
-		verifsim.Yield("control_plane.go:2385")
+		verifsim.Yield("control_plane.go:2391")
 		_vc38 := c.connStateJanitorStop
 		_vi39 := -1
-		for _, _vo40 := range verifsim.SelectOrder("control_plane.go:2385", 1) {
+		for _, _vo40 := range verifsim.SelectOrder("control_plane.go:2391", 1) {
 			switch _vo40 {
 			case 0:
 				select {
@@ -2711,7 +2716,7 @@ func (c *ControlPlane) cleanupRoutingHandoffMapBeforeLocked(staleBeforeNs uint64
 }
 
 func (c *ControlPlane) cleanupConnStateMap(aggressiveCleanup bool) (udpStats, tcpStats mapCleanupStats) {
-	verifsim.Yield("control_plane.go:2455")
+	verifsim.Yield("control_plane.go:2461")
 	c.connStateCleanupMu.Lock()
 	verifsim.Locked()
 	defer verifsim.DeferUnlock(c.connStateCleanupMu.Unlock)
@@ -2720,10 +2725,10 @@ func (c *ControlPlane) cleanupConnStateMap(aggressiveCleanup bool) (udpStats, tc
 
 func (c *ControlPlane) cleanupConnStateMapBeforeLocked(aggressiveCleanup bool, staleBeforeNs uint64) (udpStats, tcpStats mapCleanupStats) {
 	{
-		verifsim.Yield("control_plane.go:2461")
+		verifsim.Yield("control_plane.go:2467")
 		_vc41 := c.connStateJanitorStop
 		_vi42 := -1
-		for _, _vo43 := range verifsim.SelectOrder("control_plane.go:2461", 1) {
+		for _, _vo43 := range verifsim.SelectOrder("control_plane.go:2467", 1) {
 			switch _vo43 {
 			case 0:
 				select {
@@ -2910,10 +2915,10 @@ func (c *ControlPlane) checkBpfMapHealth(udpOverflow, tcpOverflow uint64) {
 	if udpOverflow > 0 || tcpOverflow > 0 {
 
 		nowNano := now.UnixNano()
-		verifsim.Yield("control_plane.go:2639")
+		verifsim.Yield("control_plane.go:2645")
 		last := c.lastBpfOverflowAlertTime.Load()
 		if last == 0 || last+int64(alertCooldown) < nowNano {
-			verifsim.Yield("control_plane.go:2641")
+			verifsim.Yield("control_plane.go:2647")
 			if c.lastBpfOverflowAlertTime.CompareAndSwap(last, nowNano) {
 				c.log.Warnf("BPF map overflow detected: UDP conn state=%d, TCP conn state=%d. "+
 					"Some packets are falling back to slower paths. Check if map capacity is adequate.",
@@ -2933,10 +2938,10 @@ func (c *ControlPlane) checkBpfMapHealth(udpOverflow, tcpOverflow uint64) {
 
 	if udpOverflow > 100 {
 		nowNano := now.UnixNano()
-		verifsim.Yield("control_plane.go:2662")
+		verifsim.Yield("control_plane.go:2668")
 		last := c.lastUdpPressureAlertTime.Load()
 		if last == 0 || last+int64(alertCooldown) < nowNano {
-			verifsim.Yield("control_plane.go:2664")
+			verifsim.Yield("control_plane.go:2670")
 			if c.lastUdpPressureAlertTime.CompareAndSwap(last, nowNano) {
 				c.log.Errorf("CRITICAL: UDP conn state map is under heavy pressure (overflow=%d). "+
 					"Configured capacity=%d. Consider increasing conn_state_map capacity or reducing UDP connection timeout.",
@@ -2946,10 +2951,10 @@ func (c *ControlPlane) checkBpfMapHealth(udpOverflow, tcpOverflow uint64) {
 	}
 	if tcpOverflow > 100 {
 		nowNano := now.UnixNano()
-		verifsim.Yield("control_plane.go:2673")
+		verifsim.Yield("control_plane.go:2679")
 		last := c.lastTcpPressureAlertTime.Load()
 		if last == 0 || last+int64(alertCooldown) < nowNano {
-			verifsim.Yield("control_plane.go:2675")
+			verifsim.Yield("control_plane.go:2681")
 			if c.lastTcpPressureAlertTime.CompareAndSwap(last, nowNano) {
 				c.log.Errorf("CRITICAL: TCP conn state map is under heavy pressure (overflow=%d). "+
 					"Configured capacity=%d. Consider increasing conn_state_map capacity or reducing TCP connection timeout.",
@@ -2975,12 +2980,12 @@ func (c *ControlPlane) readMapOverflowCounters(m *ebpf.Map) (udpOverflow uint64,
 func (c *ControlPlane) allowDnsFastPathErrorLog(now time.Time) bool {
 	nowNano := now.UnixNano()
 	for {
-		verifsim.Yield("control_plane.go:2700")
+		verifsim.Yield("control_plane.go:2706")
 		last := c.lastDnsFastPathErrorLogTime.Load()
 		if nowNano-last < int64(dnsFastPathErrorLogInterval) {
 			return false
 		}
-		verifsim.Yield("control_plane.go:2704")
+		verifsim.Yield("control_plane.go:2710")
 		if c.lastDnsFastPathErrorLogTime.CompareAndSwap(last, nowNano) {
 			return true
 		}
@@ -2990,12 +2995,12 @@ func (c *ControlPlane) allowDnsFastPathErrorLog(now time.Time) bool {
 func (c *ControlPlane) allowDnsFastPathServfailLog(now time.Time) bool {
 	nowNano := now.UnixNano()
 	for {
-		verifsim.Yield("control_plane.go:2713")
+		verifsim.Yield("control_plane.go:2719")
 		last := c.lastDnsFastPathServfailLogTime.Load()
 		if nowNano-last < int64(dnsFastPathErrorLogInterval) {
 			return false
 		}
-		verifsim.Yield("control_plane.go:2717")
+		verifsim.Yield("control_plane.go:2723")
 		if c.lastDnsFastPathServfailLogTime.CompareAndSwap(last, nowNano) {
 			return true
 		}
@@ -3248,10 +3253,10 @@ func (c *ControlPlane) Serve(readyChan chan<- bool, listener *Listener) (err err
 	defer func() {
 		if !sentReady {
 			{
-				verifsim.Yield("control_plane.go:2977")
+				verifsim.Yield("control_plane.go:2983")
 				_vc44 := readyChan
 				_vi45 := -1
-				for _, _vo46 := range verifsim.SelectOrder("control_plane.go:2977", 1) {
+				for _, _vo46 := range verifsim.SelectOrder("control_plane.go:2983", 1) {
 					switch _vo46 {
 					case 0:
 						select {
@@ -3286,10 +3291,10 @@ func (c *ControlPlane) Serve(readyChan chan<- bool, listener *Listener) (err err
 	c.markReady()
 	sentReady = true
 	{
-		verifsim.Yield("control_plane.go:2996")
+		verifsim.Yield("control_plane.go:3002")
 		_vc47 := readyChan
 		_vi48 := -1
-		for _, _vo49 := range verifsim.SelectOrder("control_plane.go:2996", 1) {
+		for _, _vo49 := range verifsim.SelectOrder("control_plane.go:3002", 1) {
 			switch _vo49 {
 			case 0:
 				select {
@@ -3311,10 +3316,10 @@ func (c *ControlPlane) Serve(readyChan chan<- bool, listener *Listener) (err err
 	serveTCP := func(tcpListener net.Listener) {
 		for {
 			{
-				verifsim.Yield("control_plane.go:3002")
+				verifsim.Yield("control_plane.go:3008")
 				_vc50 := c.ctx.Done()
 				_vi51 := -1
-				for _, _vo52 := range verifsim.SelectOrder("control_plane.go:3002", 1) {
+				for _, _vo52 := range verifsim.SelectOrder("control_plane.go:3008", 1) {
 					switch _vo52 {
 					case 0:
 						select {
@@ -3360,7 +3365,7 @@ func (c *ControlPlane) Serve(readyChan chan<- bool, listener *Listener) (err err
 				}
 				_va54 := lconn
 				_va55 := drainRelease
-				verifsim.Go("control_plane.go:3019", func() {
+				verifsim.Go("control_plane.go:3025", func() {
 					_vf53(_va54, _va55)
 				})
 			}
@@ -3369,18 +3374,18 @@ func (c *ControlPlane) Serve(readyChan chan<- bool, listener *Listener) (err err
 	{
 		_vf56 := serveTCP
 		_va57 := listener.tcp4Listener
-		verifsim.Go("control_plane.go:3034", func() {
+		verifsim.Go("control_plane.go:3040", func() {
 			_vf56(_va57)
 		})
 	}
 	{
 		_vf58 := serveTCP
 		_va59 := listener.tcp6Listener
-		verifsim.Go("control_plane.go:3035", func() {
+		verifsim.Go("control_plane.go:3041", func() {
 			_vf58(_va59)
 		})
 	}
-	verifsim.Go("control_plane.go:3036", func() {
+	verifsim.Go("control_plane.go:3042", func() {
 		processPacket := func(pktBuf pool.PB, src netip.AddrPort, oob []byte) {
 			pktDst := RetrieveOriginalDest(oob)
 			realDst := common.ConvergeAddrPort(pktDst)
@@ -3578,7 +3583,7 @@ func (c *ControlPlane) Serve(readyChan chan<- bool, listener *Listener) (err err
 			case StrategyDirectGoroutine:
 				{
 					_vf60 := task
-					verifsim.Go("control_plane.go:3253", func() {
+					verifsim.Go("control_plane.go:3259", func() {
 						_vf60()
 					})
 				}
@@ -3600,10 +3605,10 @@ func (c *ControlPlane) Serve(readyChan chan<- bool, listener *Listener) (err err
 
 			for {
 				{
-					verifsim.Yield("control_plane.go:3273")
+					verifsim.Yield("control_plane.go:3279")
 					_vc61 := c.ctx.Done()
 					_vi62 := -1
-					for _, _vo63 := range verifsim.SelectOrder("control_plane.go:3273", 1) {
+					for _, _vo63 := range verifsim.SelectOrder("control_plane.go:3279", 1) {
 						switch _vo63 {
 						case 0:
 							select {
@@ -3645,10 +3650,10 @@ func (c *ControlPlane) Serve(readyChan chan<- bool, listener *Listener) (err err
 		var oob [udpIngressOobSize]byte
 		for {
 			{
-				verifsim.Yield("control_plane.go:3302")
+				verifsim.Yield("control_plane.go:3308")
 				_vc64 := c.ctx.Done()
 				_vi65 := -1
-				for _, _vo66 := range verifsim.SelectOrder("control_plane.go:3302", 1) {
+				for _, _vo66 := range verifsim.SelectOrder("control_plane.go:3308", 1) {
 					switch _vo66 {
 					case 0:
 						select {
@@ -3682,10 +3687,10 @@ func (c *ControlPlane) Serve(readyChan chan<- bool, listener *Listener) (err err
 		}
 	})
 	c.ActivateCheck()
-	verifsim.Yield("control_plane.go:3325")
+	verifsim.Yield("control_plane.go:3331")
 	<-c.ctx.Done()
-	verifsim.Yield("control_plane.go:3325+")
-	verifsim.Yield("control_plane.go:3329")
+	verifsim.Yield("control_plane.go:3331+")
+	verifsim.Yield("control_plane.go:3335")
 
 	ctxErr := c.ctx.Err()
 	if ctxErr != nil {
@@ -3870,11 +3875,11 @@ func (c *ControlPlane) AbortConnections() (err error) {
 	if c == nil {
 		return nil
 	}
-	verifsim.Yield("control_plane.go:3515")
+	verifsim.Yield("control_plane.go:3521")
 	c.rejectNewConnections.Store(true)
 
 	var errs []error
-	verifsim.Yield("control_plane.go:3518")
+	verifsim.Yield("control_plane.go:3524")
 	c.inConnections.Range(func(key, value any) bool {
 
 		conn, ok := key.(net.Conn)
@@ -3886,7 +3891,7 @@ func (c *ControlPlane) AbortConnections() (err error) {
 		if cerr := conn.Close(); cerr != nil {
 			errs = append(errs, cerr)
 		}
-		verifsim.Yield("control_plane.go:3529")
+		verifsim.Yield("control_plane.go:3535")
 		c.inConnections.Delete(key)
 		return true
 	})
@@ -3905,7 +3910,7 @@ func (c *ControlPlane) MarkRetired() {
 	if c == nil || c.core == nil {
 		return
 	}
-	verifsim.Yield("control_plane.go:3557")
+	verifsim.Yield("control_plane.go:3563")
 	c.core.retired.Store(true)
 }
 
@@ -3925,22 +3930,22 @@ func (c *ControlPlane) closeTail() error {
 			errs = append(errs, e)
 		}
 	}
-	verifsim.Yield("control_plane.go:3581")
+	verifsim.Yield("control_plane.go:3587")
 
 	c.realDomainNegSet.Range(func(key, value any) bool {
-		verifsim.Yield("control_plane.go:3582")
+		verifsim.Yield("control_plane.go:3588")
 		c.realDomainNegSet.Delete(key)
 		return true
 	})
-	verifsim.Yield("control_plane.go:3585")
+	verifsim.Yield("control_plane.go:3591")
 	c.dnsDialerSnapshot.Range(func(key, value any) bool {
-		verifsim.Yield("control_plane.go:3586")
+		verifsim.Yield("control_plane.go:3592")
 		c.dnsDialerSnapshot.Delete(key)
 		return true
 	})
-	verifsim.Yield("control_plane.go:3589")
+	verifsim.Yield("control_plane.go:3595")
 	c.dnsDialerPenalty.Range(func(key, value any) bool {
-		verifsim.Yield("control_plane.go:3590")
+		verifsim.Yield("control_plane.go:3596")
 		c.dnsDialerPenalty.Delete(key)
 		return true
 	})
@@ -3974,7 +3979,7 @@ func (c *ControlPlane) releaseRetainedState() {
 	if handoff, owned := c.takeDNSHandoffController(); owned && handoff != nil {
 		_ = handoff.Close()
 	}
-	verifsim.Yield("control_plane.go:3634")
+	verifsim.Yield("control_plane.go:3640")
 	c.muRealDomainSet.Lock()
 	c.realDomainSet = nil
 	c.muRealDomainSet.Unlock()
@@ -3983,7 +3988,7 @@ func (c *ControlPlane) releaseRetainedState() {
 	c.lanInterface = nil
 	c.udpUnorderedRunner = nil
 	c.failedQuicDcidCache = nil
-	verifsim.Yield("control_plane.go:3642")
+	verifsim.Yield("control_plane.go:3648")
 	c.listenerPublishMu.Lock()
 	c.listenerFiles = nil
 	c.listenerPublishMu.Unlock()
@@ -3996,7 +4001,7 @@ func (c *ControlPlane) Close() (err error) {
 	if c == nil {
 		return nil
 	}
-	verifsim.Yield("control_plane.go:3655")
+	verifsim.Yield("control_plane.go:3661")
 
 	c.closeOnce.Do(func() {
 		c.unpublishRuntimeStats()
@@ -4005,36 +4010,36 @@ func (c *ControlPlane) Close() (err error) {
 		}
 
 		var stopWg sync.WaitGroup
-		verifsim.Yield("control_plane.go:3662")
+		verifsim.Yield("control_plane.go:3668")
 		stopWg.Add(2)
-		verifsim.Go("control_plane.go:3663", func() {
+		verifsim.Go("control_plane.go:3669", func() {
 			defer stopWg.Done()
 			c.stopRealDomainNegJanitor()
 		})
-		verifsim.Go("control_plane.go:3667", func() {
+		verifsim.Go("control_plane.go:3673", func() {
 			defer stopWg.Done()
 			c.stopConnStateJanitor()
 		})
-		verifsim.Yield("control_plane.go:3671")
+		verifsim.Yield("control_plane.go:3677")
 		stopWg.Wait()
-		verifsim.Yield("control_plane.go:3671+")
+		verifsim.Yield("control_plane.go:3677+")
 
 		done := make(chan error, 1)
-		verifsim.Go("control_plane.go:3674", func() {
-			verifsim.Yield("control_plane.go:3675")
+		verifsim.Go("control_plane.go:3680", func() {
+			verifsim.Yield("control_plane.go:3681")
 			done <- c.closeTail()
-			verifsim.Yield("control_plane.go:3675+")
+			verifsim.Yield("control_plane.go:3681+")
 		})
 
 		timer := time.NewTimer(controlPlaneDeferredCleanupTimeout)
 		defer timer.Stop()
 		{
-			verifsim.Yield("control_plane.go:3681")
+			verifsim.Yield("control_plane.go:3687")
 			_vc67 := done
 			var _vr68 = verifsim.ChanZero(_vc67)
 			_vc69 := timer.C
 			_vi70 := -1
-			for _, _vo71 := range verifsim.SelectOrder("control_plane.go:3681", 2) {
+			for _, _vo71 := range verifsim.SelectOrder("control_plane.go:3687", 2) {
 				switch _vo71 {
 				case 0:
 					select {
@@ -4060,7 +4065,7 @@ func (c *ControlPlane) Close() (err error) {
 				case <-_vc69:
 					_vi70 = 1
 				}
-				verifsim.Yield("control_plane.go:3681+")
+				verifsim.Yield("control_plane.go:3687+")
 			}
 			switch _vi70 {
 			case 0:
